@@ -3,7 +3,7 @@ C08 — nonlinear FIBER conserves energy up to loss (for every adaptive step sch
 form without dispersion, treats one polarisation like the x-polarisation of two, and terminates.
 Theorems about `Model/FiberNL.lean` at ℝ; the driver runs the same definitions at Float against FIBER().
 -/
-import OptiVerif.Lemmas.FiberNLTerm
+import OptiVerif.Lemmas.FiberNLPhase
 
 namespace OptiVerif.Props.C08
 open OptiVerif OptiVerif.Fourier OptiVerif.Fiber OptiVerif.FiberNL
@@ -194,6 +194,73 @@ theorem terminates_linear (wConv kappa fs alpha b2 b3 phiMax L : ℝ) (A : Rows 
   split
   · exact ⟨_, rfl⟩
   · exact ⟨_, rfl⟩
+
+/-! ### the adaptive rule: no step rotates the nonlinear phase by more than phi_max -/
+
+/-- **phase bound**: in the dispersive nonlinear branch, for every step `h` the loop applies — the clamped first step,
+    every adaptive step and the final partial step — `gamma · h · (peak total power of the field entering that step)`
+    is at most `phi_max`, and no step is negative.  (This is the defining property of the method "based on limiting the
+    nonlinear phase rotation"; it also says the steps never propagate backwards.) -/
+theorem step_phase_bounded (wConv kappa fs alpha b2 b3 gamma phiMax L : ℝ) (fuel : ℕ) (A : Rows ℝ) (out : Out ℝ)
+    (hA : Layout A) (hg : 0 < gamma) (hdisp : ¬ (b2 = 0 ∧ b3 = 0)) (hphi : 0 ≤ phiMax) (hL : 0 ≤ L)
+    (hok : fiber wConv kappa fs alpha b2 b3 gamma phiMax L fuel A = .ok out) :
+    ∀ q ∈ trace (step wConv fs (alpha / kappa) b2 b3 gamma) A out.steps,
+      gamma * q.2 * peak q.1 ≤ phiMax ∧ 0 ≤ q.2 := by
+  unfold fiber at hok
+  simp only at hok
+  have hnd : (Cmp.eqz b2 && Cmp.eqz b3) = false := by
+    rcases Classical.em (b2 = 0) with h2 | h2
+    · have h3 : b3 ≠ 0 := fun h3 => hdisp ⟨h2, h3⟩
+      simp [h2, h3]
+    · simp [h2]
+  simp only [hnd, Bool.false_and, Bool.false_eq_true, if_false] at hok
+  have hpk0 := peak_nonneg A hA
+  have hfirst : firstH b2 b3 gamma phiMax L A = min L (phiMax / (gamma * peak A)) := by
+    simp only [firstH, hnd, Bool.false_or]
+    have : Cmp.eqz gamma = false := by simp [hg.ne']
+    simp only [this, Bool.false_eq_true, if_false]
+    by_cases hlt : L < phiMax / (gamma * peak A)
+    · simp [hlt, min_eq_left (le_of_lt hlt)]
+    · simp [hlt, min_eq_right (not_lt.mp hlt)]
+  have hrule := nextH_phase gamma phiMax L hg.ne' hphi A
+  have hnx : nextH gamma phiMax L A = phiMax / (gamma * peak A) := by simp [nextH, hg.ne']
+  have hh0 : 0 ≤ firstH b2 b3 gamma phiMax L A := by
+    rw [hfirst]; exact le_min hL (div_nonneg hphi (mul_nonneg hg.le hpk0))
+  have hhL : firstH b2 b3 gamma phiMax L A ≤ L := by rw [hfirst]; exact min_le_left _ _
+  have hstep0 : gamma * firstH b2 b3 gamma phiMax L A * peak A ≤ phiMax := by
+    have hle : firstH b2 b3 gamma phiMax L A ≤ nextH gamma phiMax L A := by rw [hfirst, hnx]; exact min_le_right _ _
+    calc gamma * firstH b2 b3 gamma phiMax L A * peak A
+        ≤ gamma * nextH gamma phiMax L A * peak A :=
+          mul_le_mul_of_nonneg_right (mul_le_mul_of_nonneg_left hle hg.le) hpk0
+      _ ≤ phiMax := hrule
+  split at hok
+  · exact absurd hok (by simp)
+  · next A' acc x hloop =>
+    obtain ⟨new, h1, h2, h3, h4, h5, h6⟩ :=
+      loop_phase wConv fs (alpha / kappa) b2 b3 gamma phiMax L hg hphi fuel A _ _ [] hA hh0 hhL hstep0 A' acc x hloop
+    simp only [List.append_nil] at h1
+    split at hok
+    · injection hok with hok
+      subst hok
+      simp only [h1, List.reverse_reverse]
+      exact h3
+    · injection hok with hok
+      subst hok
+      simp only [h1, List.reverse_cons, List.reverse_reverse, trace_append]
+      intro q hq
+      rcases List.mem_append.mp hq with hq | hq
+      · exact h3 q hq
+      · simp only [trace, List.mem_singleton] at hq
+        subst hq
+        simp only
+        rw [← h2]
+        have hf0 : 0 ≤ L - x := by linarith
+        have hflt : L - x ≤ nextH gamma phiMax L A' := by linarith
+        refine ⟨?_, hf0⟩
+        calc gamma * (L - x) * peak A'
+            ≤ gamma * nextH gamma phiMax L A' * peak A' :=
+              mul_le_mul_of_nonneg_right (mul_le_mul_of_nonneg_left hflt hg.le) (peak_nonneg A' h5)
+          _ ≤ phiMax := nextH_phase gamma phiMax L hg.ne' hphi A'
 
 /-! ### non-vacuity -/
 
